@@ -2,7 +2,7 @@
    Statements only; every proof is `exact <lemma>` (proofs: Pgm/WriteProofs.v, Base/NumProofs.v). *)
 From Coq Require Import List Bool ZArith NArith QArith Qabs.
 Import ListNotations.
-From Femto Require Import Base.Num Base.NumProofs Ctl.Tok Ctl.Machine Geo.Rigid Pgm.Ops Pgm.WriteProofs.
+From Femto Require Import Base.Num Base.NumProofs Base.RndProofs Ctl.Tok Ctl.Machine Geo.Rigid Geo.RigidProofs Pgm.Ops Pgm.WriteProofs.
 Open Scope Z_scope.
 
 (* For every configuration, every tracked compiler state, every machine state that agrees with it on the
@@ -46,6 +46,22 @@ Print Assumptions C01_format_error.
 Theorem C01_feed_positive : forall d q, 0 <= d <= 9 -> (1 / inject_Z (pow10 d) <= q)%Q -> 0 < fmt d q.
 Proof. exact fmt_pos. Qed.
 Print Assumptions C01_feed_positive.
+
+(* single-precision accuracy.  The coordinates that are printed are those of the float32 pipeline (tr32); they differ from
+   the exact transformation (tr) by the rotated and mirrored rounding errors of the two float32 subtractions, and each
+   float32 rounding moves a number by at most half a unit in the last place: 2^-24 relative (2^-150 absolute below the
+   normal range) *)
+Theorem C01_float32_rounding : forall q, (Qabs (rnd32 q - q) <= Qabs q / inject_Z (2 ^ 24) + pow2 (-150))%Q.
+Proof. exact rnd32_error. Qed.
+Print Assumptions C01_float32_rounding.
+
+Theorem C01_float32_pipeline_error : forall c x y z,
+  let dx := in_err x (t_sx c) in let dy := in_err y (t_sy c) in
+  (px3 (tr32 c (x, y, z)) - px3 (tr c (x, y, z)) == t_c c * (sgn (t_fx c) * dx) - t_s c * (sgn (t_fy c) * dy) /\
+   py3 (tr32 c (x, y, z)) - py3 (tr c (x, y, z)) == t_s c * (sgn (t_fx c) * dx) + t_c c * (sgn (t_fy c) * dy) /\
+   pz3 (tr32 c (x, y, z)) - pz3 (tr c (x, y, z)) == t_k c * (rnd32 z - z))%Q.
+Proof. exact tr32_minus_tr. Qed.
+Print Assumptions C01_float32_pipeline_error.
 
 (* non-vacuity and the witness that used to fail: a shutter change that coincides with a displacement.
    points (0,0,0,f=1,s=0) ; (1,0,0,f=1,s=1): the move to x=1 is made, with the shutter open *)
